@@ -1,6 +1,11 @@
 """Deterministic step budget: counts 'line' trace events in frames whose code lives in a816/ or script/
 and raises BudgetExceeded inside the running code when the budget is exhausted.  Wall-clock time is never
-used as a correctness signal."""
+used as a correctness signal.
+
+Work done inside one C call (a regular expression that backtracks catastrophically, a huge integer operation) produces
+no line events.  For that there is a second, coarse bound on the CPU time of this process (ITIMER_VIRTUAL, which the
+regex engine honours: it polls for signals): it does not grow when the machine is busy, and it is set several orders of
+magnitude above what the unchanged assembler needs for the same input."""
 from __future__ import annotations
 
 import sys
@@ -21,8 +26,9 @@ class Watchdog:
     limit -- and code that then swallows the RecursionError and carries on would run unobserved.  Monitoring callbacks
     stay registered whatever they raise."""
 
-    def __init__(self, budget: int):
+    def __init__(self, budget: int, cpu_seconds: float | None = None):
         self.budget = budget
+        self.cpu_seconds = cpu_seconds
         self.count = 0
         self._interesting: dict = {}
 
@@ -81,6 +87,22 @@ class Watchdog:
 
     def run(self, fn, *args, **kwargs):
         """-> (status, value): status in ok | exception | budget"""
+        if self.cpu_seconds:
+            import signal
+
+            def on_cpu(signum, frame):
+                raise BudgetExceeded(f"more than {self.cpu_seconds} s of CPU time")
+
+            old_h = signal.signal(signal.SIGVTALRM, on_cpu)
+            signal.setitimer(signal.ITIMER_VIRTUAL, self.cpu_seconds)
+            try:
+                return self._run(fn, args, kwargs)
+            finally:
+                signal.setitimer(signal.ITIMER_VIRTUAL, 0)
+                signal.signal(signal.SIGVTALRM, old_h)
+        return self._run(fn, args, kwargs)
+
+    def _run(self, fn, args, kwargs):
         if hasattr(sys, "monitoring"):
             return self._run_monitoring(fn, args, kwargs)
         old = sys.gettrace()
@@ -118,3 +140,9 @@ def selftest() -> None:
     w = Watchdog(200_000)
     st, _ = w.run(ns2["deep"], 0)
     assert st == "budget", st
+    # a C-level loop without line events is stopped by the CPU-time bound
+    import re
+
+    w = Watchdog(10_000, cpu_seconds=0.5)
+    st, v = w.run(re.match, r"^(?:a{1,2})+b", "a" * 64)
+    assert st == "budget" and "CPU" in v, (st, v)
